@@ -231,6 +231,10 @@ class C01(e1.E1Check):
         return l3_table_c01, [var(I), var(var(I)), opt(var(I)), var(opt(I)), reg(2, I), rec(("x", I), ("y", var(I))),
                               var(rec(("x", I), ("y", F))), var(S), I]
 
+    def l3_bounds(self, tier):
+        # three rows are needed for two partitions of an index to differ from the array's two partitions
+        return (3, 2, 10) if tier == "quick" else (3, 2, 40)
+
     def l3_signature(self, T, tvs, label):
         import ast
         pidx = label.startswith("getitem-pidx")
